@@ -5,7 +5,9 @@ Mirrors, statement by statement, the integer arithmetic of
   SRC/[sdcz]memory.c   (line numbers of dmemory.c, pinned tree)
     dSetupSpace 54-66, duser_malloc 70-87, duser_free 90-98, dQuerySpace 111-139,
     ilu_dQuerySpace 152-182, dLUMemInit 196-333 (size query 229-231, pointer arrays 243-255,
-    the four first allocations 257-260, retry/halving loop 262-287), dLUWorkInit 339-393,
+    the four first allocations 257-260, retry/halving loop 262-287; the branch
+    `fact == SamePattern_SameRowPerm` — storage of the previous factorization re-adopted — is `memInitReuse`,
+    with its own line-by-line table further down, line numbers of /repo HEAD 4a8c012), dLUWorkInit 339-393,
     dLUWorkFree 414-428, dLUMemXpand 439-493, dexpand 507-633 (malloc mode 536-556, workspace mode:
     first allocation 560-575, later expansion 577-625), dmemory_usage 712-724
   SRC/memory.c         user_bcopy 138-146 (backward byte copy), copy_mem_int 128-135
@@ -401,7 +403,8 @@ structure InitRes where
   spin : Bool := false
 deriving Repr, DecidableEq, Inhabited
 
-/-- `dLUMemInit` for `fact != SamePattern_SameRowPerm`, `lwork >= 0` (dmemory.c:196-333).
+/-- `dLUMemInit` for `fact != SamePattern_SameRowPerm`, `lwork >= 0` (dmemory.c:196-333); the other branch is
+`memInitReuse` below.
 Malloc count convention: only `SUPERLU_MALLOC`s written in `[sdcz]memory.c` are counted — #0 is
 `Glu->expanders` (ABORT on failure, not modelled), #1..#4 the four arrays, then the work array. -/
 def memInit (fx : Fixes) (fail : Nat → Bool) (c : Cfg) : InitRes :=
@@ -427,6 +430,72 @@ def workFree (s : St) : St :=
   if s.user = false then s
   else { s with used := s.used - (s.size - s.top2), top2 := s.size,
                 iwork := s.size, iworkLen := 0, dwork := s.size, dworkLen := 0 }
+
+/-! ### `LUMemInit`, branch `fact == SamePattern_SameRowPerm` (storage of the previous factorization re-adopted)
+
+Line numbers of dmemory.c on /repo HEAD 4a8c012 (the four precision copies are line-for-line the same).
+`prev` is what the previous factorization left in `Glu` (and in the stores of `L`, `U`, which hold the same
+base pointers: [sdcz]gstrf.c:437-451 copies `Glu->lusup/ucol/lsub/usub` and the pointer arrays back into
+`L->Store`, `U->Store` after every factorization, so `Lstore->nzval == Glu->lusup` etc. on entry) — i.e. the
+state after `LUWorkFree` ([sdcz]gstrf.c:433).
+
+What the branch does, statement by statement:
+  208      `Glu->n = n`
+  209      `Glu->num_expansions = 0`
+  211-213  `Glu->expanders = SUPERLU_MALLOC(...)` (one malloc from `[sdcz]memory.c`; ABORT on failure)
+  302-306  the five pointer arrays are taken from `L->Store` / `U->Store`: nothing is allocated, the head of
+           a workspace (`hdrEnd`) stays where it is
+  307-309  `nzlmax, nzumax, nzlumax` := `Glu->nzlmax, Glu->nzumax, Glu->nzlumax` (the lengths the previous
+           factorization ended with, expansions included)
+  311-315  `lwork == -1`: size query from those lengths (`queryInfoReuse`)
+  316-317  `lwork == 0`: `Glu->MemModel = SYSTEM` — nothing else
+  318-321  otherwise: `Glu->MemModel = USER; Glu->stack.top2 = (lwork/4)*4; Glu->stack.size = Glu->stack.top2`.
+           NOT touched: `Glu->stack.used`, `Glu->stack.top1` (they still describe the pointer arrays and the
+           four L/U arrays at the head of the buffer) and `Glu->stack.array` (the `work` argument is not read:
+           the buffer, hence its alignment `base4`, is the one of the previous call).  `dSetupSpace` is NOT
+           called (it would zero `used` and `top1`: see `reuse_reset_loses_bytes` in Props/C08.lean).
+  324-327  `expanders[t].mem` := the four base pointers of the previous factorization: offsets unchanged,
+           nothing is copied, moved or cleared
+  328-331  `expanders[LSUB].size = nzlmax`, `[LUSUP].size = nzlumax`, `[USUB].size = nzumax`,
+           `[UCOL].size = nzumax`: USUB's recorded length is `nzumax` whatever it was
+  334-345  `Glu->...` := the same values
+  347-352  `LUWorkInit`: the two work arrays from the tail (workspace) / two library allocations, exactly as in
+           the other branch; on failure `info + memory_usage(nzlmax, nzumax, nzlumax, n) + n`
+  354      `++Glu->num_expansions`
+-/
+
+/-- value returned for `lwork == -1` (dmemory.c:311-315): the estimate uses the lengths of the previous
+factorization instead of `fill_ratio * nnz(A)` -/
+def queryInfoReuse (c : Cfg) (prev : St) : Int :=
+  (5 * c.n + 5) * c.w.iw + tempSpace c + (prev.capS + prev.capU) * c.w.iw + (prev.capL + prev.capU) * c.w.dw + c.n
+
+/-- dmemory.c:208-213 and 300-345: everything up to the call of `LUWorkInit`.  Library allocation: the
+array "offsets" are block numbers; they stay, and the malloc counter goes on counting, so that blocks
+allocated later get fresh numbers. -/
+def reuseSetup (c : Cfg) (prev : St) : St :=
+  { prev with
+    n := c.n                                                         -- 208
+    nexp := 0                                                        -- 209
+    mallocs := prev.mallocs + 1                                      -- 211 (Glu->expanders)
+    user := decide (c.lwork ≠ 0)                                     -- 316-319
+    top2 := if c.lwork = 0 then prev.top2 else (c.lwork / 4) * 4     -- 320
+    size := if c.lwork = 0 then prev.size else (c.lwork / 4) * 4     -- 321
+    capB := prev.capU }                                              -- 330; used, top1, base4, hdrEnd, off*, capL/U/S kept
+
+/-- `[sdcz]LUMemInit` for `fact == SamePattern_SameRowPerm`, `lwork >= 0` (dmemory.c:208-213, 298-355).
+No `Fixes` parameter: none of the defects D3, D7, D10, D11 is in this branch. -/
+def memInitReuse (fail : Nat → Bool) (c : Cfg) (prev : St) : InitRes :=
+  let s0 := reuseSetup c prev
+  let r := if s0.user = true then workInitUser c s0 else workInitSys c fail s0      -- 347
+  if r.2 ≠ 0 then { st := r.1, info := r.2 + memoryUsage c.w s0.capS s0.capU s0.capL c.n + c.n }   -- 348-352
+  else { st := { r.1 with nexp := r.1.nexp + 1 }, info := 0 }                       -- 354
+
+/-- what the same branch does when the set-up of lines 316-322 is replaced by a call of `SetupSpace`
+(a plausible "clean-up"; seeded changes C07-9 and C08-9): `used` and `top1` are zeroed as well
+(dmemory.c:60-61).  Not the library's behaviour — kept here so that the driver can name the deviation and
+the proofs can show what it breaks. -/
+def memInitReuseReset (fail : Nat → Bool) (c : Cfg) (prev : St) : InitRes :=
+  memInitReuse fail c (if c.lwork = 0 then prev else { prev with used := 0, top1 := 0 })
 
 abbrev expand_asIs := expand asIs
 abbrev expand_fixed := expand fixed
